@@ -27,7 +27,10 @@ LEVEL_NOTE = ("Trusted: Lean kernel; axioms propext/Classical.choice/Quot.sound;
               "than 'some executable bit set', the concurrency of the restore goroutines (missing-blob-in-directory hang = F-errchan, property C04).")
 TECHNIQUE = "Lean 4 proof over an executable model + differential correspondence with the real output handlers + before/after listing oracle"
 OBLIGATIONS = [
+    "Grog.C06.restoreDir_writeDir",
     "Grog.C06.restoreFile_writeFile",
+    "Grog.C06.restore_total",
+    "Grog.C06.validate_outputs",
     "Grog.C06.restoreFile_old_loses_exec_witness",
     "Grog.C06.restoreFile_old_missing_parent_witness",
 ]
